@@ -1,5 +1,7 @@
 import Srctools.Model.C06
 /-! # C06 — helper lemmas for the tree-level round trip -/
+set_option linter.unusedSimpArgs false
+set_option linter.unusedVariables false
 open C06
 namespace C06
 
@@ -1378,6 +1380,673 @@ theorem parseEnt_block (mb w hidden : Bool) (groups : List Group) (e : Ent) (h :
   have e1 := foldl_entSetKey [] (isort keyLe e.keys) (by simpa using hkd)
   simp only [List.nil_append] at e1
   rw [e1, fixInit_id _ hfid hfv]
+
+
+
+
+/-! ### `Entity.__setitem__` on the key list -/
+
+theorem go_map_keys (k v : Str) (l : List (Str × Str)) :
+    (entSetKey.go k v l).map (fun kv => lower kv.1) = l.map (fun kv => lower kv.1) := by
+  induction l with
+  | nil => rfl
+  | cons a r ih =>
+    simp only [entSetKey.go]
+    split
+    · simp
+    · simp [ih]
+
+theorem keysDistinct_iff (l : List (Str × Str)) :
+    KeysDistinct l ↔ (l.map (fun kv => lower kv.1)).Pairwise (· ≠ ·) := by
+  simp [KeysDistinct, List.pairwise_map]
+
+theorem keysDistinct_entSetKey (ks : List (Str × Str)) (k v : Str) (h : KeysDistinct ks) :
+    KeysDistinct (entSetKey ks k v) := by
+  unfold entSetKey
+  split
+  · rw [keysDistinct_iff, go_map_keys, ← keysDistinct_iff]; exact h
+  · rename_i hno
+    simp only [List.any_eq_true, beq_iff_eq, not_exists, not_and] at hno
+    simp only [KeysDistinct, List.pairwise_append, List.pairwise_cons, List.mem_singleton]
+    refine ⟨h, by simp, ?_⟩
+    intro a ha b hb
+    subst hb
+    exact hno a ha
+
+theorem go_mem (k v : Str) (l : List (Str × Str)) :
+    ∀ kv ∈ entSetKey.go k v l, kv ∈ l ∨ (lower kv.1 = lower k ∧ kv.2 = v) := by
+  induction l with
+  | nil => intro kv h; simp [entSetKey.go] at h
+  | cons a r ih =>
+    intro kv h
+    simp only [entSetKey.go] at h
+    split at h
+    · rename_i heq
+      simp only [List.mem_cons] at h
+      rcases h with rfl | h
+      · right; exact ⟨by simpa using heq, rfl⟩
+      · left; simp [h]
+    · simp only [List.mem_cons] at h
+      rcases h with rfl | h
+      · left; simp
+      · rcases ih kv h with h' | h'
+        · left; simp [h']
+        · right; exact h'
+
+theorem entSetKey_mem (ks : List (Str × Str)) (k v : Str) :
+    ∀ kv ∈ entSetKey ks k v, kv ∈ ks ∨ (lower kv.1 = lower k ∧ kv.2 = v) := by
+  intro kv h
+  unfold entSetKey at h
+  split at h
+  · exact go_mem k v ks kv h
+  · simp only [List.mem_append, List.mem_singleton] at h
+    rcases h with h | rfl
+    · left; exact h
+    · right; exact ⟨rfl, rfl⟩
+
+theorem go_has (k v : Str) (l : List (Str × Str)) (h : l.any (fun kv => lower kv.1 == lower k) = true) :
+    ∃ kv ∈ entSetKey.go k v l, lower kv.1 = lower k ∧ kv.2 = v := by
+  induction l with
+  | nil => simp at h
+  | cons a r ih =>
+    simp only [entSetKey.go]
+    split
+    · rename_i heq
+      exact ⟨(a.1, v), by simp, by simpa using heq, rfl⟩
+    · rename_i hne
+      simp only [List.any_cons, Bool.or_eq_true] at h
+      rcases h with h | h
+      · exact absurd h hne
+      · obtain ⟨kv, hm, hp⟩ := ih h
+        exact ⟨kv, by simp [hm], hp⟩
+
+theorem entSetKey_has (ks : List (Str × Str)) (k v : Str) :
+    ∃ kv ∈ entSetKey ks k v, lower kv.1 = lower k ∧ kv.2 = v := by
+  unfold entSetKey
+  split
+  · rename_i h; exact go_has k v ks h
+  · exact ⟨(k, v), by simp, rfl, rfl⟩
+
+theorem go_idem (k v : Str) (l : List (Str × Str)) (hd : KeysDistinct l)
+    (hm : ∃ kv ∈ l, lower kv.1 = lower k ∧ kv.2 = v) : entSetKey.go k v l = l := by
+  induction l with
+  | nil => rfl
+  | cons a r ih =>
+    simp only [KeysDistinct, List.pairwise_cons] at hd
+    obtain ⟨kv, hmem, hk, hv⟩ := hm
+    simp only [entSetKey.go]
+    split
+    · rename_i heq
+      have heq' : lower a.1 = lower k := by simpa using heq
+      simp only [List.mem_cons] at hmem
+      rcases hmem with rfl | hmem
+      · cases kv; simp_all
+      · exact absurd (heq'.trans hk.symm) (hd.1 kv hmem)
+    · rename_i hne
+      have hne' : lower a.1 ≠ lower k := by simpa using hne
+      simp only [List.mem_cons] at hmem
+      rcases hmem with rfl | hmem
+      · exact absurd hk hne'
+      · rw [ih hd.2 ⟨kv, hmem, hk, hv⟩]
+
+theorem entSetKey_idem (l : List (Str × Str)) (k v : Str) (hd : KeysDistinct l)
+    (hm : ∃ kv ∈ l, lower kv.1 = lower k ∧ kv.2 = v) : entSetKey l k v = l := by
+  unfold entSetKey
+  have : l.any (fun kv => lower kv.1 == lower k) = true := by
+    obtain ⟨kv, hmem, hk, _⟩ := hm
+    simp only [List.any_eq_true, beq_iff_eq]
+    exact ⟨kv, hmem, hk⟩
+  rw [this]
+  simp only [if_true]
+  exact go_idem k v l hd hm
+
+
+
+
+/-! ### Strata viewports -/
+
+def ViewOK : View → Bool
+  | .v2 a u v z => decide (a < 3) && TokOK u && TokOK v && TokOK z && !isBig u && !isBig v
+  | .v3 p a => V3OK p && V3OK a
+
+theorem tokOK_big1 : TokOK (lit "65536") = true := by decide
+theorem tokOK_big2 : TokOK (lit "-65536") = true := by decide
+
+theorem parseViewKids_export (title : String) (is0 : Bool) (d : Nat) (v : View) (h : ViewOK v = true) :
+    parseViewKids is0 d (exportView title v).kids = .ok v := by
+  cases v with
+  | v3 p a =>
+    simp only [ViewOK, Bool.and_eq_true] at h
+    simp only [exportView, kBlock, KV.kids]
+    have e1 : getBool "3d" is0 [kLeaf "3d" ['1'], kLeaf "position" (wrap '(' ')' p.str), kLeaf "angle" (wrap '[' ']' a.str)] = true := by
+      kv_simp; simp [show boolLookup ['1'] = some true by decide]
+    have e2 : getV3 "position" v3zero [kLeaf "3d" ['1'], kLeaf "position" (wrap '(' ')' p.str), kLeaf "angle" (wrap '[' ']' a.str)] = p := by
+      kv_simp; exact parseV3_wrap _ _ _ _ h.1 (by decide) (by decide) (by decide) (by decide)
+    have e3 : getLeaf "angle" [kLeaf "3d" ['1'], kLeaf "position" (wrap '(' ')' p.str), kLeaf "angle" (wrap '[' ']' a.str)] = some (wrap '[' ']' a.str) := by
+      kv_simp
+    simp only [parseViewKids, e1, e2, e3, if_true, Option.getD_some]
+    rw [parseV3_wrap _ _ _ _ h.2 (by decide) (by decide) (by decide) (by decide)]
+  | v2 ax u w z =>
+    simp only [ViewOK, Bool.and_eq_true, decide_eq_true_eq, Bool.not_eq_true'] at h
+    obtain ⟨⟨⟨⟨⟨hax, hu⟩, hw⟩, hz⟩, hbu⟩, hbw⟩ := h
+    have hzu : isZeroTok (lit "65536") = false := by decide
+    have hzn : isZeroTok (lit "-65536") = false := by decide
+    have hb1 : isBig (lit "65536") = true := by decide
+    have hb2 : isBig (lit "-65536") = true := by decide
+    have key : ∀ (pos : V3) (hp : V3OK pos = true),
+        parseViewKids is0 d [kLeaf "3d" ['0'], kLeaf "position" (wrap '(' ')' pos.str), kLeaf "zoom" z]
+          = (if pos.toks.all isZeroTok then .ok (.v2 d ['0'] ['0'] z) else viewFromVector pos z) := by
+      intro pos hp
+      have e1 : getBool "3d" is0 [kLeaf "3d" ['0'], kLeaf "position" (wrap '(' ')' pos.str), kLeaf "zoom" z] = false := by
+        kv_simp; simp [show boolLookup ['0'] = some false by decide]
+      have e2 : getV3 "position" v3zero [kLeaf "3d" ['0'], kLeaf "position" (wrap '(' ')' pos.str), kLeaf "zoom" z] = pos := by
+        kv_simp; exact parseV3_wrap _ _ _ _ hp (by decide) (by decide) (by decide) (by decide)
+      have e3 : getFloat "zoom" ['1'] [kLeaf "3d" ['0'], kLeaf "position" (wrap '(' ')' pos.str), kLeaf "zoom" z] = z := by
+        kv_simp; simp [tok_isNum hz]
+      simp only [parseViewKids, e1, e2, e3, Bool.false_eq_true, if_false]
+    have ax3 : ax = 0 ∨ ax = 1 ∨ ax = 2 := by omega
+    rcases ax3 with rfl | rfl | rfl
+    · have hp : V3OK ⟨lit "65536", u, w⟩ = true := by simp [V3OK, tokOK_big1, hu, hw]
+      have := key ⟨lit "65536", u, w⟩ hp
+      simp only [V3.str, V3.toks] at this
+      simp only [exportView, kBlock, KV.kids, beq_self_eq_true, if_true, List.cons_append, List.nil_append]
+      rw [this]
+      simp [hzu, viewFromVector, pickAxis, hb1, hbu, hbw, mkView2]
+    · have hp : V3OK ⟨u, lit "-65536", w⟩ = true := by simp [V3OK, tokOK_big2, hu, hw]
+      have := key ⟨u, lit "-65536", w⟩ hp
+      simp only [V3.str, V3.toks] at this
+      simp only [exportView, kBlock, KV.kids, Nat.reduceBEq, Bool.false_eq_true, if_false, beq_self_eq_true, if_true,
+        List.cons_append, List.nil_append]
+      rw [this]
+      simp [hzn, viewFromVector, pickAxis, hb2, hbu, hbw, mkView2]
+    · have hp : V3OK ⟨u, w, lit "65536"⟩ = true := by simp [V3OK, tokOK_big1, hu, hw]
+      have := key ⟨u, w, lit "65536"⟩ hp
+      simp only [V3.str, V3.toks] at this
+      simp only [exportView, kBlock, KV.kids, Nat.reduceBEq, Bool.false_eq_true, if_false, beq_self_eq_true, if_true,
+        List.cons_append, List.nil_append]
+      rw [this]
+      simp [hzu, viewFromVector, pickAxis, hb1, hbu, hbw, mkView2]
+
+theorem exportView_block (title : String) (v : View) :
+    exportView title v = KV.block title.toList (exportView title v).kids := by
+  cases v <;> simp [exportView, kBlock, KV.kids]
+
+theorem parseViews_export (pre : List KV) (a b c d : View)
+    (ha : ViewOK a = true) (hb : ViewOK b = true) (hc : ViewOK c = true) (hd : ViewOK d = true) :
+    parseViews (pre ++ [kBlock "views" (exportViews viewTitles [a, b, c, d])]) = .ok (some [a, b, c, d]) := by
+  have hfk : findKey "views" (pre ++ [kBlock "views" (exportViews viewTitles [a, b, c, d])])
+      = some (kBlock "views" (exportViews viewTitles [a, b, c, d])) := by
+    unfold findKey
+    rw [findLast_append]
+    simp [findLast, kBlock, named, KV.fname, KV.name, lower]
+  unfold parseViews
+  rw [hfk]
+  simp only [kBlock, blockKids, exportViews, viewTitles]
+  have s0 : viewSub "v0" [exportView "v0" a, exportView "v1" b, exportView "v2" c, exportView "v3" d] = .ok (exportView "v0" a).kids := by
+    rw [exportView_block "v0" a, exportView_block "v1" b, exportView_block "v2" c, exportView_block "v3" d]
+    simp [viewSub, findKey, findLast, named, KV.fname, KV.name, lower, blockKids, KV.kids]
+  have s1 : viewSub "v1" [exportView "v0" a, exportView "v1" b, exportView "v2" c, exportView "v3" d] = .ok (exportView "v1" b).kids := by
+    rw [exportView_block "v0" a, exportView_block "v1" b, exportView_block "v2" c, exportView_block "v3" d]
+    simp [viewSub, findKey, findLast, named, KV.fname, KV.name, lower, blockKids, KV.kids]
+  have s2 : viewSub "v2" [exportView "v0" a, exportView "v1" b, exportView "v2" c, exportView "v3" d] = .ok (exportView "v2" c).kids := by
+    rw [exportView_block "v0" a, exportView_block "v1" b, exportView_block "v2" c, exportView_block "v3" d]
+    simp [viewSub, findKey, findLast, named, KV.fname, KV.name, lower, blockKids, KV.kids]
+  have s3 : viewSub "v3" [exportView "v0" a, exportView "v1" b, exportView "v2" c, exportView "v3" d] = .ok (exportView "v3" d).kids := by
+    rw [exportView_block "v0" a, exportView_block "v1" b, exportView_block "v2" c, exportView_block "v3" d]
+    simp [viewSub, findKey, findLast, named, KV.fname, KV.name, lower, blockKids, KV.kids]
+  simp only [parseView, s0, s1, s2, s3, parseViewKids_export _ _ _ _ ha, parseViewKids_export _ _ _ _ hb,
+    parseViewKids_export _ _ _ _ hc, parseViewKids_export _ _ _ _ hd]
+
+
+
+
+/-! ### the root level -/
+
+/-- the exported entity blocks: blocks named `entity` or `hidden` -/
+def EntsShape (ents : List KV) : Prop :=
+  ∀ x ∈ ents, x.isBlock = true ∧ (x.fname = lit "entity" ∨ x.fname = lit "hidden")
+
+theorem ents_not_named (key : String) (ents : List KV) (h : EntsShape ents)
+    (h1 : lower key.toList ≠ lit "entity") (h2 : lower key.toList ≠ lit "hidden") :
+    ∀ x ∈ ents, named key x = false := by
+  intro x hx
+  simp only [named, beq_eq_false_iff_ne, ne_eq]
+  rcases (h x hx).2 with e | e <;> rw [e] <;> intro c
+  · exact h1 c.symm
+  · exact h2 c.symm
+
+theorem findLast_mid {α} (p : α → Bool) (pre ents post : List α) (he : ∀ x ∈ ents, p x = false) :
+    findLast p (pre ++ (ents ++ post)) = match findLast p post with
+      | some r => some r
+      | none => findLast p pre := by
+  rw [findLast_append, findLast_append_left_none p ents post he]
+  all_goals (cases findLast p post <;> rfl)
+
+section
+variable (minimal hasQuick : Bool) (verK visK viewK wk : List KV) (ents camK cordK quickK : List KV)
+
+theorem rootOf_assoc :
+    rootOf minimal hasQuick verK visK viewK (kBlock "world" wk) ents camK cordK quickK =
+      ([kBlock "versioninfo" verK, kBlock "visgroups" visK] ++
+        ((if minimal then [] else [kBlock "viewsettings" viewK]) ++ [kBlock "world" wk])) ++
+      (ents ++ ((if minimal then [] else [kBlock "cameras" camK, kBlock "cordons" cordK]) ++
+        (if hasQuick then [kBlock "quickhide" quickK] else []))) := by
+  simp [rootOf]
+
+macro "root_block" k:term:max hs:term:max : tactic => `(tactic| (
+  unfold getBlock
+  rw [rootOf_assoc, findLast_mid _ _ _ _ (by
+    intro x hx
+    have := ents_not_named $k _ $hs (by decide) (by decide) x hx
+    simp [this])]
+  cases minimal <;> cases hasQuick <;>
+    simp [findLast, kBlock, named, KV.fname, KV.name, KV.isBlock, KV.kids, lower]))
+
+theorem root_versioninfo (hs : EntsShape ents) :
+    getBlock "versioninfo" (rootOf minimal hasQuick verK visK viewK (kBlock "world" wk) ents camK cordK quickK) = verK := by
+  root_block "versioninfo" hs
+
+theorem root_viewsettings (hs : EntsShape ents) :
+    getBlock "viewsettings" (rootOf minimal hasQuick verK visK viewK (kBlock "world" wk) ents camK cordK quickK)
+      = if minimal then [] else viewK := by
+  root_block "viewsettings" hs
+
+theorem root_cameras (hs : EntsShape ents) :
+    getBlock "cameras" (rootOf minimal hasQuick verK visK viewK (kBlock "world" wk) ents camK cordK quickK)
+      = if minimal then [] else camK := by
+  root_block "cameras" hs
+
+theorem root_cordons (hs : EntsShape ents) :
+    getBlock "cordons" (rootOf minimal hasQuick verK visK viewK (kBlock "world" wk) ents camK cordK quickK)
+      = if minimal then [] else cordK := by
+  root_block "cordons" hs
+
+theorem root_quickhide (hs : EntsShape ents) :
+    getBlock "quickhide" (rootOf minimal hasQuick verK visK viewK (kBlock "world" wk) ents camK cordK quickK)
+      = if hasQuick then quickK else [] := by
+  root_block "quickhide" hs
+
+theorem root_world (hs : EntsShape ents) :
+    worldKv (rootOf minimal hasQuick verK visK viewK (kBlock "world" wk) ents camK cordK quickK) = kBlock "world" wk := by
+  unfold worldKv
+  rw [rootOf_assoc, findLast_mid _ _ _ _ (by
+    intro x hx
+    have := ents_not_named "world" _ hs (by decide) (by decide) x hx
+    simp [this])]
+  cases minimal <;> cases hasQuick <;>
+    simp [findLast, kBlock, named, KV.fname, KV.name, KV.isBlock, lower]
+
+theorem filter_none {α} (p : α → Bool) (l : List α) (h : ∀ x ∈ l, p x = false) : l.filter p = [] := by
+  induction l with
+  | nil => rfl
+  | cons a r ih => simp [h a (by simp), ih (fun x hx => h x (by simp [hx]))]
+
+theorem root_visgroups (hs : EntsShape ents) :
+    allVisgroups (rootOf minimal hasQuick verK visK viewK (kBlock "world" wk) ents camK cordK quickK)
+      = visK.filter (named "visgroup") := by
+  unfold allVisgroups
+  rw [rootOf_assoc]
+  simp only [List.filter_append]
+  rw [filter_none _ ents (ents_not_named "visgroups" _ hs (by decide) (by decide))]
+  cases minimal <;> cases hasQuick <;>
+    simp [kBlock, named, KV.fname, KV.name, KV.kids, lower]
+
+theorem parseRootEnts_skip (pre rest : List KV)
+    (h : ∀ x ∈ pre, named "entity" x = false ∧ named "hidden" x = false) :
+    parseRootEnts (pre ++ rest) = parseRootEnts rest := by
+  induction pre with
+  | nil => rfl
+  | cons k ks ih =>
+    have hk := h k (by simp)
+    simp only [List.cons_append, parseRootEnts, hk.1, hk.2, Bool.false_eq_true, if_false]
+    exact ih (fun x hx => h x (by simp [hx]))
+
+theorem parseRootEnts_append_nil (l post : List KV)
+    (h : ∀ x ∈ post, named "entity" x = false ∧ named "hidden" x = false) :
+    parseRootEnts (l ++ post) = parseRootEnts l := by
+  induction l with
+  | nil =>
+    have := parseRootEnts_skip post [] h
+    simpa [parseRootEnts] using this
+  | cons k ks ih =>
+    simp only [List.cons_append, parseRootEnts, ih]
+
+theorem root_ents :
+    parseRootEnts (rootOf minimal hasQuick verK visK viewK (kBlock "world" wk) ents camK cordK quickK)
+      = parseRootEnts ents := by
+  rw [rootOf_assoc, parseRootEnts_skip _ _ (by
+    cases minimal <;> simp [kBlock, named, KV.fname, KV.name, lower])]
+  exact parseRootEnts_append_nil _ _ (by
+    cases minimal <;> cases hasQuick <;> simp [kBlock, named, KV.fname, KV.name, lower])
+
+end
+
+
+
+
+theorem named_visgroup_exportVis (v : Vis) : named "visgroup" (exportVis v) = true := by
+  cases v with
+  | mk n i c ch => simp [exportVis, exportVisAux, named, KV.fname, KV.name, lit, lower]
+
+theorem visListOK_mem {vs : List Vis} (h : VisListOK vs = true) : ∀ v ∈ vs, VisOK v = true := by
+  induction vs with
+  | nil => intro v hv; simp at hv
+  | cons a r ih =>
+    simp only [VisListOK, Bool.and_eq_true] at h
+    intro v hv
+    simp only [List.mem_cons] at hv
+    rcases hv with rfl | hv
+    · exact h.1
+    · exact ih h.2 v hv
+
+theorem parseVisAll_export (vs : List Vis) (h : VisListOK vs = true) :
+    parseVisAll ((vs.map exportVis).filter (named "visgroup")) = .ok vs := by
+  rw [filter_map_all _ _ _ (fun v _ => named_visgroup_exportVis v)]
+  have hm := visListOK_mem h
+  clear h
+  induction vs with
+  | nil => rfl
+  | cons v r ih =>
+    simp only [List.map_cons, parseVisAll]
+    have hv : parseVis (exportVis v) = .ok v := parseVis_export v (hm v (by simp))
+    rw [hv]
+    have := ih (fun x hx => hm x (by simp [hx]))
+    rw [this]
+
+theorem parseCams_export (a : Int) (cams : List Cam) (h : ∀ c ∈ cams, CamOK c = true) :
+    parseCams (kInt "activecamera" a :: cams.map exportCam) = .ok cams := by
+  have h0 : named "activecamera" (kInt "activecamera" a) = true := by kv_simp
+  simp only [parseCams, h0, if_true]
+  induction cams with
+  | nil => rfl
+  | cons c r ih =>
+    have hn : named "activecamera" (exportCam c) = false := by
+      simp [exportCam, kBlock, named, KV.fname, KV.name, lower]
+    simp only [List.map_cons, parseCams, hn, Bool.false_eq_true, if_false,
+      parseCam_export c (h c (by simp)), ih (fun x hx => h x (by simp [hx]))]
+
+theorem parseCordons_export (b : Bool) (cs : List Cordon) (h : ∀ c ∈ cs, CordonOK c = true) :
+    parseCordons (kBool "active" b :: cs.map exportCordon) = .ok cs := by
+  have h0 : named "cordon" (kBool "active" b) = false := by kv_simp
+  simp only [parseCordons, h0, Bool.false_eq_true, if_false]
+  induction cs with
+  | nil => rfl
+  | cons c r ih =>
+    have hn : named "cordon" (exportCordon c) = true := by
+      simp [exportCordon, kBlock, named, KV.fname, KV.name, lower]
+    simp only [List.map_cons, parseCordons, hn, if_true,
+      parseCordon_export c (h c (by simp)), ih (fun x hx => h x (by simp [hx]))]
+
+/-- v1 well-formedness of the entity list element (not worldspawn) -/
+theorem exportEnt_shape (mb : Bool) (es : List Ent) : EntsShape (es.map (exportEnt mb false [])) := by
+  intro x hx
+  simp only [List.mem_map] at hx
+  obtain ⟨e, _, rfl⟩ := hx
+  cases hh : e.hidden <;>
+    simp [exportEnt, maybeHidden, hh, entBlock, kBlock, KV.isBlock, KV.fname, KV.name, lower, lit]
+
+theorem parseRootEnts_export (mb : Bool) (es : List Ent) (h : ∀ e ∈ es, EntOK1 e) :
+    parseRootEnts (es.map (exportEnt mb false [])) = .ok (es.map (fun e => entRT false e.hidden e)) := by
+  induction es with
+  | nil => rfl
+  | cons e r ih =>
+    have he := h e (by simp)
+    have ihr := ih (fun x hx => h x (by simp [hx]))
+    cases hh : e.hidden with
+    | false =>
+      have e1 : exportEnt mb false [] e = entBlock mb false [] e := by simp [exportEnt, maybeHidden, hh]
+      have hn : named "entity" (entBlock mb false [] e) = true := by
+        simp [entBlock, kBlock, named, KV.fname, KV.name, lower]
+      have hp := parseEnt_block mb false false [] e he (by simp)
+      simp only [List.map_cons, e1, parseRootEnts, hn, if_true, hp, ihr]
+      simp [hh]
+    | true =>
+      have e1 : exportEnt mb false [] e = kBlock "hidden" [entBlock mb false [] e] := by
+        simp [exportEnt, maybeHidden, hh]
+      have hn1 : named "entity" (kBlock "hidden" [entBlock mb false [] e]) = false := by
+        simp [kBlock, named, KV.fname, KV.name, lower]
+      have hn2 : named "hidden" (kBlock "hidden" [entBlock mb false [] e]) = true := by
+        simp [kBlock, named, KV.fname, KV.name, lower]
+      have hp := parseEnt_block mb false true [] e he (by simp)
+      simp only [List.map_cons, e1, parseRootEnts, hn1, hn2, Bool.false_eq_true, if_false, if_true]
+      simp only [kBlock, blockKids, parseHiddenEnts, hp, ihr]
+      simp [hh]
+
+
+
+
+def ViewsOK : Option (List View) → Prop
+  | none => True
+  | some vs => ∃ a b c d, vs = [a, b, c, d] ∧ ViewOK a = true ∧ ViewOK b = true ∧ ViewOK c = true ∧ ViewOK d = true
+
+def InstVisOK : Option Int → Prop
+  | none => True
+  | some v => v = 0 ∨ v = 1 ∨ v = 2
+
+/-- v1 well-formedness of a map: what the tree-level round trip needs (faces without
+displacement / Strata point data; see `EntOK1`). -/
+structure MapOK1 (m : VMap) : Prop where
+  format : m.formatVer = 100
+  instVis : InstVisOK m.instVis
+  views : ViewsOK m.views
+  vis : VisListOK m.vis = true
+  spawn : EntOK1 m.spawn
+  spawnVisible : m.spawn.hidden = false
+  groups : ∀ g ∈ m.groups, GroupOK g = true
+  ents : ∀ e ∈ m.ents, EntOK1 e
+  cams : ∀ c ∈ m.cams, CamOK c = true
+  cordons : ∀ c ∈ m.cordons, CordonOK c = true
+
+/-- the view-settings part of a re-parsed map -/
+structure ViewPart where
+  snap : Bool
+  grid : Bool
+  logic : Bool
+  spacing : Int
+  grid3d : Bool
+  instVis : Option Int
+  views : Option (List View)
+
+theorem viewKids_parse (m : VMap) (hi : InstVisOK m.instVis) (hv : ViewsOK m.views) :
+    getBool "bSnapToGrid" true (viewKids m) = m.snap ∧
+    getBool "bShowGrid" true (viewKids m) = m.grid ∧
+    getBool "bShowLogicalGrid" false (viewKids m) = m.logic ∧
+    getInt "nGridSpacing" 64 (viewKids m) = m.spacing ∧
+    getBool "bShow3DGrid" false (viewKids m) = m.grid3d ∧
+    parseInstVis (viewKids m) = m.instVis ∧
+    parseViews (viewKids m) = .ok m.views := by
+  unfold viewKids
+  cases hiv : m.instVis with
+  | none =>
+    cases hvv : m.views with
+    | none =>
+      refine ⟨?_, ?_, ?_, ?_, ?_, ?_, ?_⟩ <;>
+        simp [getBool, getInt, getLeaf, findLast, findKey, parseInstVis, parseViews, named, KV.fname, KV.name, kLeaf, kBool,
+          kInt, KV.isBlock, lower, boolLookup_boolStr, parseInt_showInt]
+    | some vs =>
+      rw [hvv] at hv
+      obtain ⟨a, b, c, d, rfl, ha, hb, hc, hd⟩ := hv
+      refine ⟨?_, ?_, ?_, ?_, ?_, ?_, ?_⟩
+      · simp [getBool, getLeaf, findLast, named, KV.fname, KV.name, kLeaf, kBool, kInt, kBlock, KV.isBlock, lower, boolLookup_boolStr]
+      · simp [getBool, getLeaf, findLast, named, KV.fname, KV.name, kLeaf, kBool, kInt, kBlock, KV.isBlock, lower, boolLookup_boolStr]
+      · simp [getBool, getLeaf, findLast, named, KV.fname, KV.name, kLeaf, kBool, kInt, kBlock, KV.isBlock, lower, boolLookup_boolStr]
+      · simp [getInt, getLeaf, findLast, named, KV.fname, KV.name, kLeaf, kBool, kInt, kBlock, KV.isBlock, lower, parseInt_showInt]
+      · simp [getBool, getLeaf, findLast, named, KV.fname, KV.name, kLeaf, kBool, kInt, kBlock, KV.isBlock, lower, boolLookup_boolStr]
+      · simp [parseInstVis, getLeaf, findLast, named, KV.fname, KV.name, kLeaf, kBool, kInt, kBlock, KV.isBlock, lower]
+      · simp only [List.nil_append]
+        exact parseViews_export _ a b c d ha hb hc hd
+  | some iv =>
+    rw [hiv] at hi
+    have hpi : parseInstVis ([kBool "bSnapToGrid" m.snap, kBool "bShowGrid" m.grid, kBool "bShowLogicalGrid" m.logic,
+        kInt "nGridSpacing" m.spacing, kBool "bShow3DGrid" m.grid3d] ++ [kInt "nInstanceVisibility" iv]) = some iv := by
+      simp only [parseInstVis]
+      have : getLeaf "nInstanceVisibility" ([kBool "bSnapToGrid" m.snap, kBool "bShowGrid" m.grid, kBool "bShowLogicalGrid" m.logic,
+        kInt "nGridSpacing" m.spacing, kBool "bShow3DGrid" m.grid3d] ++ [kInt "nInstanceVisibility" iv]) = some (showInt iv) := by
+        simp [getLeaf, findLast, named, KV.fname, KV.name, kLeaf, kBool, kInt, KV.isBlock, lower]
+      rw [this]
+      simp only [parseInt_showInt]
+      rcases hi with rfl | rfl | rfl <;> rfl
+    cases hvv : m.views with
+    | none =>
+      refine ⟨?_, ?_, ?_, ?_, ?_, ?_, ?_⟩
+      · simp [getBool, getLeaf, findLast, named, KV.fname, KV.name, kLeaf, kBool, kInt, kBlock, KV.isBlock, lower, boolLookup_boolStr]
+      · simp [getBool, getLeaf, findLast, named, KV.fname, KV.name, kLeaf, kBool, kInt, kBlock, KV.isBlock, lower, boolLookup_boolStr]
+      · simp [getBool, getLeaf, findLast, named, KV.fname, KV.name, kLeaf, kBool, kInt, kBlock, KV.isBlock, lower, boolLookup_boolStr]
+      · simp [getInt, getLeaf, findLast, named, KV.fname, KV.name, kLeaf, kBool, kInt, kBlock, KV.isBlock, lower, parseInt_showInt]
+      · simp [getBool, getLeaf, findLast, named, KV.fname, KV.name, kLeaf, kBool, kInt, kBlock, KV.isBlock, lower, boolLookup_boolStr]
+      · simpa using hpi
+      · simp [parseViews, findKey, findLast, named, KV.fname, KV.name, kLeaf, kBool, kInt, lower]
+    | some vs =>
+      rw [hvv] at hv
+      obtain ⟨a, b, c, d, rfl, ha, hb, hc, hd⟩ := hv
+      refine ⟨?_, ?_, ?_, ?_, ?_, ?_, ?_⟩
+      · simp [getBool, getLeaf, findLast, named, KV.fname, KV.name, kLeaf, kBool, kInt, kBlock, KV.isBlock, lower, boolLookup_boolStr]
+      · simp [getBool, getLeaf, findLast, named, KV.fname, KV.name, kLeaf, kBool, kInt, kBlock, KV.isBlock, lower, boolLookup_boolStr]
+      · simp [getBool, getLeaf, findLast, named, KV.fname, KV.name, kLeaf, kBool, kInt, kBlock, KV.isBlock, lower, boolLookup_boolStr]
+      · simp [getInt, getLeaf, findLast, named, KV.fname, KV.name, kLeaf, kBool, kInt, kBlock, KV.isBlock, lower, parseInt_showInt]
+      · simp [getBool, getLeaf, findLast, named, KV.fname, KV.name, kLeaf, kBool, kInt, kBlock, KV.isBlock, lower, boolLookup_boolStr]
+      · have : getLeaf "nInstanceVisibility" ([kBool "bSnapToGrid" m.snap, kBool "bShowGrid" m.grid, kBool "bShowLogicalGrid" m.logic,
+            kInt "nGridSpacing" m.spacing, kBool "bShow3DGrid" m.grid3d] ++
+            ([kInt "nInstanceVisibility" iv] ++ [kBlock "views" (exportViews viewTitles [a, b, c, d])])) = some (showInt iv) := by
+          simp [getLeaf, findLast, named, KV.fname, KV.name, kLeaf, kBool, kInt, kBlock, KV.isBlock, lower]
+        simp only [parseInstVis, this, parseInt_showInt]
+        rcases hi with rfl | rfl | rfl <;> rfl
+      · rw [← List.append_assoc]
+        exact parseViews_export _ a b c d ha hb hc hd
+
+
+
+
+/-- the map `parseRaw` reads from `exportTree o m` (ids as written, before `assignIds`). -/
+def rawRT (o : ExportOpts) (m : VMap) : VMap :=
+  { hammerVer := m.hammerVer, hammerBuild := m.hammerBuild, mapVer := exportedVer o m, formatVer := 100,
+    prefab := m.prefab, vis := m.vis,
+    snap := if o.minimal then true else m.snap, grid := if o.minimal then true else m.grid,
+    logic := if o.minimal then false else m.logic, spacing := if o.minimal then 64 else m.spacing,
+    grid3d := if o.minimal then false else m.grid3d,
+    instVis := if o.minimal then none else m.instVis, views := if o.minimal then none else m.views,
+    spawn := entRT true false (spawnForExport o m), groups := m.groups,
+    ents := m.ents.map (fun e => entRT false e.hidden e),
+    activeCam := if o.minimal then -1 else (if m.cams.isEmpty then -1 else m.activeCam),
+    cams := if o.minimal then [] else m.cams,
+    cordonOn := if o.minimal then false else (if m.cordons.isEmpty then false else m.cordonOn),
+    cordons := if o.minimal then [] else m.cordons,
+    quickhide := if m.quickhide > 0 then m.quickhide else 0 }
+
+theorem keyNameOK_mapversion : KeyNameOK (lit "mapversion") = true := by decide
+theorem keyNameOK_classname : KeyNameOK (lit "classname") = true := by decide
+
+theorem entOK1_spawnForExport (o : ExportOpts) (m : VMap) (h : EntOK1 m.spawn) : EntOK1 (spawnForExport o m) := by
+  refine { h with keyNames := ?_, keysDistinct := ?_ }
+  · intro kv hkv
+    simp only [spawnForExport] at hkv
+    rcases entSetKey_mem _ _ _ kv hkv with h1 | ⟨h1, _⟩
+    · rcases entSetKey_mem _ _ _ kv h1 with h2 | ⟨h2, _⟩
+      · exact h.keyNames kv h2
+      · simp only [KeyNameOK, h2]; decide
+    · simp only [KeyNameOK, h1]; decide
+  · simp only [spawnForExport]
+    exact keysDistinct_entSetKey _ _ _ (keysDistinct_entSetKey _ _ _ h.keysDistinct)
+
+theorem spawn_classname_idem (o : ExportOpts) (m : VMap) (h : EntOK1 m.spawn) :
+    entSetKey (isort keyLe (spawnForExport o m).keys) (lit "classname") (lit "worldspawn")
+      = isort keyLe (spawnForExport o m).keys := by
+  apply entSetKey_idem
+  · exact keysDistinct_isort (entOK1_spawnForExport o m h).keysDistinct
+  · obtain ⟨kv, hm, hk⟩ := entSetKey_has
+      (entSetKey m.spawn.keys (lit "mapversion") (showInt (exportedVer o m))) (lit "classname") (lit "worldspawn")
+    exact ⟨kv, (mem_isort _ _ _).mpr (by simpa [spawnForExport] using hm), hk⟩
+
+theorem parseRaw_export (o : ExportOpts) (m : VMap) (h : MapOK1 m) :
+    parseRaw (exportTree o m) = .ok (rawRT o m) := by
+  have hshape := exportEnt_shape o.multiblend m.ents
+  have hsp := entOK1_spawnForExport o m h.spawn
+  have hworld : exportEnt o.multiblend true m.groups (spawnForExport o m)
+      = kBlock "world" (entKids o.multiblend true m.groups (spawnForExport o m)) := by
+    have : (spawnForExport o m).hidden = false := h.spawnVisible
+    simp [exportEnt, maybeHidden, this, entBlock]
+  obtain ⟨v1, v2, v3, v4, v5, v6, v7⟩ := viewKids_parse m h.instVis h.views
+  unfold parseRaw exportTree
+  rw [hworld]
+  simp only [root_versioninfo _ _ _ _ _ _ _ _ _ _ hshape, root_viewsettings _ _ _ _ _ _ _ _ _ _ hshape,
+    root_cameras _ _ _ _ _ _ _ _ _ _ hshape, root_cordons _ _ _ _ _ _ _ _ _ _ hshape,
+    root_quickhide _ _ _ _ _ _ _ _ _ _ hshape, root_world _ _ _ _ _ _ _ _ _ _ hshape,
+    root_visgroups _ _ _ _ _ _ _ _ _ _ hshape, root_ents]
+  have hfv : getLeaf "formatversion" (verKids o m) = some (lit "100") := by
+    unfold verKids
+    rw [h.format]
+    kv_simp
+    decide
+  rw [hfv]
+  simp only [Option.getD_some, bne_self_eq_false, Bool.false_eq_true, if_false]
+  rw [parseVisAll_export m.vis h.vis]
+  have hw := parseEnt_block o.multiblend true false m.groups (spawnForExport o m) hsp h.groups
+  simp only [entBlock, if_true] at hw
+  have hents := parseRootEnts_export o.multiblend m.ents h.ents
+  have hv : getInt "editorversion" 400 (verKids o m) = m.hammerVer ∧
+      getInt "editorbuild" 5304 (verKids o m) = m.hammerBuild ∧
+      getInt "mapversion" 0 (verKids o m) = exportedVer o m ∧
+      getBool "prefab" false (verKids o m) = m.prefab := by
+    unfold verKids
+    refine ⟨?_, ?_, ?_, ?_⟩ <;>
+      simp [getInt, getBool, getLeaf, findLast, named, KV.fname, KV.name, kLeaf, kBool, kInt, KV.isBlock, lower,
+        boolLookup_boolStr, parseInt_showInt]
+  obtain ⟨hv1, hv2, hv3, hv4⟩ := hv
+  have hq : getInt "count" 0 (if decide (m.quickhide > 0) = true then [kInt "count" m.quickhide] else [])
+      = (if m.quickhide > 0 then m.quickhide else 0) := by
+    by_cases hq : m.quickhide > 0
+    · simp [hq, getInt, getLeaf, findLast, named, KV.fname, KV.name, kLeaf, kInt, KV.isBlock, lower, parseInt_showInt]
+    · simp [hq, getInt, getLeaf, findLast]
+  cases hmin : o.minimal with
+  | true =>
+    simp only [if_true]
+    have hpv : parseViews [] = .ok none := by simp [parseViews, findKey, findLast]
+    rw [hpv]
+    simp only [parseCams, parseCordons, hw, hents, hv1, hv2, hv3, hv4, hq]
+    simp [rawRT, hmin, getBool, getInt, getLeaf, findLast, parseInstVis, spawn_classname_idem o m h.spawn, entRT]
+  | false =>
+    simp only [Bool.false_eq_true, if_false]
+    rw [v7]
+    simp only []
+    have hcam : parseCams (camKids m) = .ok m.cams := parseCams_export _ _ h.cams
+    have hcord : parseCordons (cordonKids m) = .ok m.cordons := by
+      unfold cordonKids
+      cases hc : m.cordons with
+      | nil => simp [parseCordons, named, KV.fname, KV.name, kLeaf, lower]
+      | cons c r =>
+        simp only [List.isEmpty_cons, Bool.false_eq_true, if_false]
+        exact parseCordons_export _ _ (by rw [← hc]; exact h.cordons)
+    rw [hcam, hcord]
+    simp only [hw, hents, hv1, hv2, hv3, hv4, hq, v1, v2, v3, v4, v5, v6]
+    have hac : getInt "activecamera" (-1) (camKids m) = (if m.cams.isEmpty then -1 else m.activeCam) := by
+      unfold camKids getInt
+      have := getLeaf_append_blocks "activecamera" [kInt "activecamera" (if m.cams.isEmpty then -1 else m.activeCam)]
+        (m.cams.map exportCam) (by
+          intro k hk
+          simp only [List.mem_map] at hk
+          obtain ⟨c, _, rfl⟩ := hk
+          simp [exportCam, kBlock, KV.isBlock])
+      simp only [List.singleton_append] at this
+      rw [this]
+      kv_simp
+      simp [parseInt_showInt]
+    have hco : getBool "active" false (cordonKids m) = (if m.cordons.isEmpty then false else m.cordonOn) := by
+      unfold cordonKids getBool
+      cases hc : m.cordons with
+      | nil => simp [getLeaf, findLast, named, KV.fname, KV.name, kLeaf, KV.isBlock, lower]; decide
+      | cons c r =>
+        simp only [List.isEmpty_cons, Bool.false_eq_true, if_false]
+        have := getLeaf_append_blocks "active" [kBool "active" m.cordonOn] ((c :: r).map exportCordon) (by
+          intro k hk
+          simp only [List.mem_map] at hk
+          obtain ⟨c, _, rfl⟩ := hk
+          simp [exportCordon, kBlock, KV.isBlock])
+        simp only [List.singleton_append] at this
+        rw [this]
+        kv_simp
+        simp [boolLookup_boolStr]
+    rw [hac, hco]
+    simp [rawRT, hmin, spawn_classname_idem o m h.spawn, entRT]
 
 
 end C06
